@@ -1811,7 +1811,10 @@ def e2e_impl(mfs_i, cr_i, mfs_r, cr_r, l2_mtu, sizes):
 
 
 def e2e_verdicts(rep):
-    ok_stream, nbytes, states = e2e_impl(rep['mfs_i'], rep['cr_i'], rep['mfs_r'], rep['cr_r'], rep['l2'], rep['sizes'])
+    try:
+        ok_stream, nbytes, states = e2e_impl(rep['mfs_i'], rep['cr_i'], rep['mfs_r'], rep['cr_r'], rep['l2'], rep['sizes'])
+    except Exception as e:
+        return [('rfcomm:e2e-setup', f'two-device RFCOMM: set-up or teardown failed with {type(e).__name__} ({rep})')], 0
     out = []
     if not ok_stream:
         out.append(('rfcomm:e2e-stream', f'two-device RFCOMM: bytes received differ from bytes written ({rep})'))
